@@ -301,7 +301,7 @@ func genXCase(r *Rng, seq int) Case {
 			q = k
 		}
 		a, b := r.Intn(n-q+1), r.Intn(k-q+1)
-		c.Views = append(c.Views, View{"S", [4]int{a, a + q, b, b + q}})
+		c.Views = append(c.Views, View{K: "S", A: [4]int{a, a + q, b, b + q}})
 		n, k = q, q
 	}
 	c.Op = genXOp(r, name, c, n, k)
